@@ -159,6 +159,13 @@ def eval_app(v, env):
         return _bcast(lambda x: not x, E(0))
     if fn == "truthy":
         return _bcast(lambda x: bool(x), E(0))
+    if fn == "sum" and len(a) == 1 and (not v.kw or dict(v.kw).get("axis") in (None, Const(None), Const(0), Const(-1))):
+        x = E(0)
+        if isinstance(x, Arr) and not any(isinstance(i, Arr) for i in x):
+            return sum((_num(i) for i in x), Fraction(0))     # 1-d representative arrays only
+        if not isinstance(x, Arr):
+            return _num(x)
+        raise CannotEvaluate("sum over a nested array")
     if fn in ("any", "all") and len(a) == 1 and not v.kw:
         x = E(0)
         xs = list(x) if isinstance(x, Arr) else [x]
